@@ -35,6 +35,9 @@ SUMMARY_FILES = {'index.html', 'moduleIndex.html', 'classIndex.html', 'nameIndex
 REPORTED_FLAVOURS = {('parse', 'docstring'), ('to_stan', 'format_docstring_fallback')}
 
 
+TWIN_TIMEOUT = 100      # wall-clock seconds for one rendering run (a normal one takes 1-3 s)
+
+
 def plan(tier: str, seed: int) -> Dict[str, Any]:
     n = int(os.environ.get('VERIF_TASKS') or 0) or (170 if tier == 'quick' else 4000)
     tasks = [{'i': i, 'seed': derive(seed, PROPERTY, i), 'faults': 7 if tier == 'quick' else 14,
@@ -290,8 +293,20 @@ def run_case(case: Dict[str, Any], plans: Optional[List[Dict[str, Any]]], nplans
     h = hashlib.blake2b(digest_size=8)
     stats: Dict[str, Any] = {'runs': 0, 'fired': {}, 'in_docutils': 0, 'in_pydoctor': 0, 'extents': 0, 'events': 0,
                              'planted': 0, 'exc_classes': {}}
-    status, twin = runner.run_one(render, {'case': case, 'plan': None}, task_timeout=300)
+    status, twin = runner.run_one(render, {'case': case, 'plan': None}, task_timeout=TWIN_TIMEOUT)
     stats['runs'] += 1
+    if status == 'timeout':
+        # "always succeeds and terminates": a fault-free run takes a second or two; one that is still running after
+        # TWIN_TIMEOUT seconds of wall-clock, twice in a row, is reported as not terminating (no fault is involved)
+        status, twin = runner.run_one(render, {'case': case, 'plan': None}, task_timeout=TWIN_TIMEOUT)
+        if status == 'timeout':
+            sig = f'{PROPERTY}/hang,fault-free'
+            v = {'signature': sig, 'detail': f'fault-free rendering of the {case["docformat"]} tree did not finish within {TWIN_TIMEOUT}s (twice)',
+                 'payload': {'case': case, 'plans': []}}
+            h.update(sig.encode())
+            return {'violations': [v], 'digest': h.hexdigest(), 'stats': stats,
+                    'sample': {'docformat': case['docformat'], 'extra': case['extra'], 'files': sorted(case['files']),
+                               'one_file': next(iter(case['files'].values()))[:1200], 'plans': [], 'guarded_extents_in_twin': 0}}
     if status != 'ok':
         raise RuntimeError(f'twin run {status}: {str(twin)[-1500:]}')
     if twin['exc'] is not None:
@@ -309,7 +324,7 @@ def run_case(case: Dict[str, Any], plans: Optional[List[Dict[str, Any]]], nplans
         assert rng is not None
         plans = draw_plans(rng, twin['records'], nplans)
     for p in plans:
-        status, res = runner.run_one(render, {'case': case, 'plan': p}, task_timeout=300)
+        status, res = runner.run_one(render, {'case': case, 'plan': p}, task_timeout=TWIN_TIMEOUT)
         stats['runs'] += 1
         if status == 'timeout':
             sig = f'{PROPERTY}/hang,op={p["op"]}:{p["flavour"]}'
